@@ -10,7 +10,7 @@ use syn::punctuated::Punctuated;
 use syn::visit::Visit;
 use syn::{Expr, ExprLit, Lit, LitStr, Meta, Token};
 
-fn s(x: &str) -> String {
+pub(crate) fn s(x: &str) -> String {
     let mut out = String::from("s");
     let mut first = true;
     for c in x.chars() {
@@ -23,11 +23,11 @@ fn s(x: &str) -> String {
     out
 }
 
-fn lst(items: Vec<String>) -> String {
+pub(crate) fn lst(items: Vec<String>) -> String {
     format!("({})", items.join(" "))
 }
 
-fn opt(x: Option<String>) -> String {
+pub(crate) fn opt(x: Option<String>) -> String {
     match x {
         None => "none".into(),
         Some(v) => format!("(some {v})"),
@@ -99,7 +99,7 @@ fn meta(m: &Meta) -> String {
     }
 }
 
-fn attrs(a: &[syn::Attribute]) -> String {
+pub(crate) fn attrs(a: &[syn::Attribute]) -> String {
     lst(a.iter()
         .map(|x| format!("(attr {} {})", matches!(x.style, syn::AttrStyle::Inner(_)), meta(&x.meta)))
         .collect())
